@@ -178,6 +178,18 @@ pub fn family_program(rng: &mut Rng) -> Program {
             roots.push(Src::App(d, args));
         }
     }
+    // cross-overlapping arguments F<a,b>, F<b,c>, F<c,a> for a member with >= 2 parameters
+    if rng.chance(1, 3) {
+        let multi: Vec<usize> = (fam_start..defs.len()).filter(|d| defs[*d].params.len() >= 2).collect();
+        if !multi.is_empty() {
+            let d = *rng.pick(&multi);
+            let pool = [Src::Prim("u16"), Src::Prim("i64"), Src::Prim("char")];
+            for k in 0..3 {
+                let args: Vec<Src> = (0..defs[d].params.len()).map(|i| pool[(k + i) % 3].clone()).collect();
+                roots.push(Src::App(d, args));
+            }
+        }
+    }
     if rng.chance(1, 3) && defs.len() > fam_start + 1 {
         // a::Outer<T> { h: <member> } twice with different members / arguments
         let outer = defs.len();
